@@ -283,6 +283,12 @@ func GenOpFor(ch *core.Chooser, hosts []string, kinds []int, lines []string) Op 
 			v = v[:j]
 		}
 		src := firstHost(v)
+		if ds := strings.FieldsFunc(v, func(r rune) bool { return r == '|' }); len(ds) > 1 {
+			// any of the permitted domains, not always the first
+			if d := strings.TrimPrefix(ds[ch.Intn("q.whichdomain", len(ds))], "~"); d != "" {
+				src = d
+			}
+		}
 		if strings.HasSuffix(src, ".*") {
 			// $domain=name.* : the page is on name.<some public suffix>
 			src = []string{"", "www."}[ch.Intn("q.srcwww", 2)] + strings.TrimSuffix(src, "*") + []string{"co.uk", "uk", "com", "com.au", "org"}[ch.Intn("q.srcsuffix", 5)]
@@ -291,7 +297,25 @@ func GenOpFor(ch *core.Chooser, hosts []string, kinds []int, lines []string) Op 
 		if allowed(OpMatchAll) && ch.Intn("q.derivekind", 3) == 2 {
 			k = OpMatchAll
 		}
-		return Op{Kind: k, URL: "https://" + queryHost(ch, hosts) + webPaths[ch.Intn("q.path", len(webPaths))],
+		scheme, path := "https://", webPaths[ch.Intn("q.path", len(webPaths))]
+		if ch.Intn("q.patdirected", 2) == 1 {
+			// a URL that the rule's (short) pattern accepts
+			pat := strings.TrimPrefix(l, "@@")
+			if j := strings.IndexByte(pat, '$'); j >= 0 {
+				pat = pat[:j]
+			}
+			switch {
+			case strings.HasPrefix(pat, "/ad^"):
+				path = []string{"/ad/x.gif", "/ad?slot=1"}[ch.Intn("q.patpath", 2)]
+			case strings.HasPrefix(pat, "=1"):
+				path = "/path/AdS.js?x=1"
+			case strings.HasPrefix(pat, "|ws"):
+				scheme = "ws://"
+			case strings.HasPrefix(pat, "/") && !strings.ContainsAny(pat, "*^|"):
+				path = pat
+			}
+		}
+		return Op{Kind: k, URL: scheme + queryHost(ch, hosts) + path,
 			Src: "https://" + src + SrcPaths[ch.Intn("q.srcpath", len(SrcPaths))], Type: reqTypes[ch.Intn("q.type", len(reqTypes))]}
 	case len(l) > 0 && (l[0] >= '0' && l[0] <= '9' || l[0] == ':') && strings.ContainsAny(l, " \t"):
 		f := strings.Fields(l)
